@@ -37,6 +37,9 @@ type Machine[I any] struct {
 	// does, and the raw-state key cannot see such a residue. The quick tier does this for histories of
 	// up to three operations, the thorough tier up to five.
 	Observe func(in I)
+	// ObserveDepth: observed histories are tried for histories up to this length in the quick tier
+	// (default 2; the thorough tier goes to 4)
+	ObserveDepth int
 	// Sequential: run one transition at a time. Needed where the oracle watches state that lives
 	// outside the instance (a bystander instance, package-level state): with transitions running side
 	// by side, a leak between instances would be blamed on the wrong history, or be undone by a
@@ -66,6 +69,8 @@ type histCase struct {
 	Ops     []string `json:"ops"`
 	// Observed: the queries were issued at the start and after every step of the history
 	Observed bool `json:"observed_history,omitempty"`
+	// ObservedAt: the queries were issued once only, after this many steps of the history
+	ObservedAt int `json:"queries_issued_only_after_step,omitempty"`
 }
 
 func safeApply[I any](m *Machine[I], in I, op int, check bool) (out []string) {
@@ -114,10 +119,15 @@ func rebuild[I any](m *Machine[I], hist []int) (in I, names []string, ok bool) {
 	return
 }
 
-// rebuildObserved replays a history with the queries issued at the start and after every step.
-func rebuildObserved[I any](m *Machine[I], hist []int) (in I, ok bool) {
+// rebuildObserved replays a history with the queries issued at the start and after every step; with
+// only > 0, after that many steps and at no other time.
+func rebuildObserved[I any](m *Machine[I], hist []int, only ...int) (in I, ok bool) {
 	in = m.New()
 	ok = true
+	at := 0
+	if len(only) > 0 {
+		at = only[0]
+	}
 	obs := func() {
 		defer func() {
 			if r := recover(); r != nil {
@@ -129,8 +139,10 @@ func rebuildObserved[I any](m *Machine[I], hist []int) (in I, ok bool) {
 		}()
 		m.Observe(in)
 	}
-	obs()
-	for _, op := range hist {
+	if at == 0 {
+		obs()
+	}
+	for i, op := range hist {
 		if !ok {
 			return
 		}
@@ -138,7 +150,9 @@ func rebuildObserved[I any](m *Machine[I], hist []int) (in I, ok bool) {
 			ok = false
 			return
 		}
-		obs()
+		if at == 0 || at == i+1 {
+			obs()
+		}
 	}
 	return
 }
@@ -148,13 +162,14 @@ func BFS[I any](c *Ctx, m *Machine[I]) bfsStats {
 	type node struct {
 		hist []int
 		key  string
-		noop bool // reached through a no-op transition (kept although its key was known)
+		noop bool // reached through a transition that led back to a state on its own path (kept although its key was known)
+		path []string // keys of the states this history went through (kept for the first NoopProbeDepth levels only)
 	}
 	st := bfsStats{}
 	seen := map[string]struct{}{}
 	root := m.New()
 	seen[m.Key(root)] = struct{}{}
-	frontier := []node{{key: m.Key(root)}}
+	frontier := []node{{key: m.Key(root), path: []string{m.Key(root)}}}
 	st.States = 1
 	depth := 0
 	complete := true
@@ -216,7 +231,7 @@ func BFS[I any](c *Ctx, m *Machine[I]) bfsStats {
 					r.keys = append(r.keys, m.Key(in))
 				}
 				r.hists = append(r.hists, nh)
-				if m.Observe != nil && len(bad) == 0 && (len(h) <= 2 || (!c.Quick() && len(h) <= 4)) {
+				if m.Observe != nil && len(bad) == 0 && (len(h) <= max(2, m.ObserveDepth) || (!c.Quick() && len(h) <= 4)) {
 					if in2, ok2 := rebuildObserved(m, h); ok2 && m.Enabled(in2, op) {
 						r.trans++
 						for _, b := range safeApply(m, in2, op, true) {
@@ -224,6 +239,19 @@ func BFS[I any](c *Ctx, m *Machine[I]) bfsStats {
 							nh := append(append([]int{}, h...), op)
 							c.Violation(key+":observed-history", fmt.Sprintf("[%s] after %v then %s, with every query issued at the start and after every earlier step: %s", m.Name, names, name, detail),
 								histCase{Machine: m.Name, History: nh, Ops: append(append([]string{}, names...), name), Observed: true}, len(nh))
+						}
+					}
+					// ... and with the queries issued once only, after each single step in turn: what a query
+					// leaves behind may be undone by the next query, or only matter if no query follows
+					for at := 1; at < len(h); at++ {
+						if in3, ok3 := rebuildObserved(m, h, at); ok3 && m.Enabled(in3, op) {
+							r.trans++
+							for _, b := range safeApply(m, in3, op, true) {
+								key, detail := splitKD(b)
+								nh := append(append([]int{}, h...), op)
+								c.Violation(key+":observed-history", fmt.Sprintf("[%s] after %v then %s, with every query issued once, after step %d only: %s", m.Name, names, name, at, detail),
+									histCase{Machine: m.Name, History: nh, Ops: append(append([]string{}, names...), name), ObservedAt: at}, len(nh))
+							}
 						}
 					}
 				}
@@ -234,16 +262,29 @@ func BFS[I any](c *Ctx, m *Machine[I]) bfsStats {
 		for _, r := range results {
 			st.Transitions += r.trans
 			for j, k := range r.keys {
+				parent := frontier[r.from]
+				var path []string
+				if m.NoopProbeDepth > 0 && depth < m.NoopProbeDepth {
+					path = append(append([]string{}, parent.path...), k)
+				}
 				if _, dup := seen[k]; dup {
-					if parent := frontier[r.from]; m.NoopProbeDepth > 0 && depth < m.NoopProbeDepth && !parent.noop && k == parent.key {
-						next = append(next, node{hist: r.hists[j], key: k, noop: true})
-						st.NoopNodes++
+					// a transition that changes nothing, or leads back to a state this very history has been in
+					// (a call undone by a later one): whatever the dump cannot see may differ, so the node is
+					// kept, once, and every operation is tried from it as well
+					if m.NoopProbeDepth > 0 && depth < m.NoopProbeDepth && !parent.noop {
+						for _, pk := range parent.path {
+							if pk == k {
+								next = append(next, node{hist: r.hists[j], key: k, noop: true, path: path})
+								st.NoopNodes++
+								break
+							}
+						}
 					}
 					continue
 				}
 				seen[k] = struct{}{}
 				st.States++
-				next = append(next, node{hist: r.hists[j], key: k})
+				next = append(next, node{hist: r.hists[j], key: k, path: path})
 			}
 		}
 		if c.TimeUp() {
@@ -280,16 +321,19 @@ func splitKD(s string) (string, string) {
 	return s, s
 }
 
+// replayObservedAt is set by main from the replay file ("queries_issued_only_after_step").
+var replayObservedAt int
+
 // replayHistory re-executes one history with full checking (used by --replay).
 func replayHistory[I any](c *Ctx, m *Machine[I], hist []int, observed ...bool) {
 	in := m.New()
 	var names []string
 	obs := len(observed) > 0 && observed[0] && m.Observe != nil
-	if obs {
+	if obs && replayObservedAt == 0 {
 		m.Observe(in)
 	}
 	for i, op := range hist {
-		if obs && i > 0 {
+		if m.Observe != nil && ((obs && i > 0 && replayObservedAt == 0) || (replayObservedAt > 0 && replayObservedAt == i)) {
 			m.Observe(in)
 		}
 		name := m.OpName(in, op)
